@@ -159,7 +159,11 @@ func (w *World) userBody(ui int) {
 			data := outPayload(id, op.N)
 			aid := w.newAsync("asyncwrite", cs.idx, ui)
 			w.asyncs[aid].seq = seq
-			err := c.AsyncWrite(data, func(c gnet.Conn, err error) error { w.asyncWriteDone(aid, cs, id, op.N, c, err); return nil })
+			err := c.AsyncWrite(data, func(c gnet.Conn, err error) error {
+				w.asyncWriteDone(aid, cs, id, op.N, c, err)
+				scribble(data)
+				return nil
+			})
 			w.asyncIssued(aid, err)
 		case "asyncwritev":
 			id := w.newOpID()
@@ -176,7 +180,11 @@ func (w *World) userBody(ui int) {
 			}
 			aid := w.newAsync("asyncwritev", cs.idx, ui)
 			w.asyncs[aid].seq = seq
-			err := c.AsyncWritev(bs, func(c gnet.Conn, err error) error { w.asyncWriteDone(aid, cs, id, total, c, err); return nil })
+			err := c.AsyncWritev(bs, func(c gnet.Conn, err error) error {
+				w.asyncWriteDone(aid, cs, id, total, c, err)
+				scribble(data)
+				return nil
+			})
 			w.asyncIssued(aid, err)
 		case "wake":
 			aid := w.newAsync("wake", cs.idx, ui)
